@@ -142,6 +142,7 @@ ErrLib == <<
   <<"local", "x", "<close>", "=", "1">>,
   <<"local", "x", "<", "=", "1">>,
   <<"local", "x", "<const", "=", "1">>,
+  <<"local", "<const>", "x", "=", "1">>,
   \* doc comments: doc-parser error paths
   <<"---@field", "1">>,
   <<"---@field", "public">>,
